@@ -105,6 +105,7 @@ class Cache:
                 res.cols = {
                     node.uuid_map[uid]: Col(col.name, node, node.uuid_map[uid], col._dtype, col._ftype)
                     for uid, col in self.cols.items()
+                    if uid in node.uuid_map  # columns without a counterpart (hidden ones) leave the scope
                 }
                 res.partition_by = [node.uuid_map[uid] for uid in self.partition_by]
                 res.derived_from = set()
